@@ -278,6 +278,10 @@ class Parser:
 
         for num, self.line in enumerate(lines):
             self.process_line(num != len(lines) - 1)
+        if self.set_line:
+            # SET statement in the last line of the input
+            self.process_set()
+            self.set_line = None
         if self.comments:
             self.tables.append({"comments": self.comments})
         return self.tables
